@@ -95,6 +95,9 @@ class REPEX_state:
         # keep track of olds in case of delete_old = True
         self.pn_olds = {}
 
+        # the scheduler stream state is restored once after a restart
+        self._rgen_restored = False
+
     @property
     def prob(self):
         """Calculate the P matrix."""
@@ -225,10 +228,18 @@ class REPEX_state:
         In case a crash, we pick lock locked from previous simulation.
         """
         if not self.locked0:
-            if "restarted_from" in self.config["current"]:
-                # get the same pick() as pre-restart. Need to set it again
-                # because current self.rgen was used for calculating self.prob.
-                self.set_rgen()
+            if (
+                "restarted_from" in self.config["current"]
+                and not self._rgen_restored
+            ):
+                # get the same pick() as pre-restart. Need to set the state
+                # again because current self.rgen was used for calculating
+                # self.prob. Only the bit generator state is restored (once):
+                # the spawn counter must keep counting the jobs issued so far.
+                self.rgen.bit_generator.state = self.config["current"][
+                    "rng_state"
+                ]
+                self._rgen_restored = True
             return self.pick()
 
         enss = []
@@ -402,7 +413,8 @@ class REPEX_state:
         """Set numpy random generator state from restart."""
         seed_sequence = np.random.SeedSequence(
             entropy=self.config["simulation"]["seed"],
-            n_children_spawned=self.cstep,
+            n_children_spawned=self.cstep
+            + len(self.config["current"].get("locked", [])),
         )
         self.rgen = default_rng(seed_sequence)
         self.rgen.bit_generator.state = self.config["current"]["rng_state"]
